@@ -170,7 +170,7 @@ func (e *Srv) Start() error {
 	}
 	e.S = s
 	e.HTTP, e.TCP, e.UDP = s.Ports()
-	e.hc = &http.Client{Timeout: 20 * time.Second, Transport: &http.Transport{MaxIdleConnsPerHost: 64, IdleConnTimeout: 5 * time.Second}}
+	e.hc = &http.Client{Timeout: 20 * time.Second, Transport: &http.Transport{MaxIdleConnsPerHost: 64, IdleConnTimeout: 1 * time.Second}} // idle timeout below the test server's 2.5 s keep-alive limit
 	return nil
 }
 
